@@ -29,16 +29,22 @@ static void c02_ff_check(Ctx& ctx, const Args& a)
 static const i128 kMulTargets[] = { (i128)1 << 63, ((i128)1 << 63) - 1, (i128)MAXF * 65536, ((i128)MAXF + 1) * 65536, (i128)1 << 62, (i128)1 << 79, ((i128)1 << 63) + 65536, ((i128)1 << 63) - 65536, (i128)1 << 64, (i128)0x7fffffffffff0000ll };
 static Args c02_ff_decode(Ctx&, Dec& d)
 {
-  int op = (int)d.range(0, 2); int64_t a = dec_raw(d); int mode = (int)d.range(0, 4); int64_t b = dec_raw(d);
+  int op = (int)d.range(0, 2); int64_t a = dec_raw(d); int mode = (int)d.range(0, 5); int64_t b = dec_raw(d);
   int ti = (int)d.range(0, 9); int dl = (int)d.range(-3, 3); bool neg = d.flag(); uint64_t u = d.u64(); int slack = (int)d.range(-3, 3);
   if ((mode == 1 || mode == 2) && a != 0) { i128 T = kMulTargets[ti]; if (neg) T = -T; b = fin_clamp(T / a + dl); }
+  else if (mode == 5) { // raw product EXACTLY on an int64 limit: +-(2^63-1) = 7^2*73*127*337*92737*649657 split into two factors, -2^63 and 2^62 as powers of two
+    static const int64_t pf[7] = { 7, 7, 73, 127, 337, 92737, 649657 }; int64_t f = 1, g = 1; for (int i = 0; i < 7; ++i) { if ((u >> i) & 1) f *= pf[i]; else g *= pf[i]; }
+    int k = (int)((u >> 8) % 64);
+    switch ((u >> 16) % 4) { case 0: a = f; b = neg ? -g : g; break; case 1: a = -f; b = neg ? -g : g; break;
+      case 2: a = (int64_t)1 << (k % 63); b = -((int64_t)1 << (63 - k % 63 > 62 ? 62 : 63 - k % 63)); if (k % 63 == 0) { a = 2; b = -((int64_t)1 << 62); } break;
+      default: a = (int64_t)1 << (k % 62); b = (int64_t)1 << (62 - k % 62); if (neg) a = -a; break; } }
   else if (mode >= 3) { // complementary bit lengths: len(a)+len(b) around 63
     int la = bitlen64((uint64_t)(a < 0 ? -a : a)); int lb = 63 - la + slack; if (lb < 1) lb = 1; if (lb > 63) lb = 63;
     uint64_t m = ((uint64_t)1 << lb) - 1; int64_t v = (int64_t)((u & m) | ((uint64_t)1 << (lb - 1))); if (v > MAXF) v = MAXF; b = neg ? -v : v; }
   return { op, a, b };
 }
 static Reg r_c02_ff({ "C02.mulff", "C02", "rc",
-  "pairs of finite raw values x {*, *=, fixed_multiply}: independent, product-targeted (b = T/a +- 3 for T in {+-2^63, +-(2^63-1), +-MAXF*2^16, +-2^62, +-2^79, ...}) and complementary bit lengths (len a + len b = 63 +- 3); oracle in 128-bit integers: result is NaN or |r*2^16 - a*b| <= 2^16; not NaN when a*b fits int64; NaN when |a*b| > MAXF*2^16; non-trivial = |a*b| >= 2^62",
+  "pairs of finite raw values x {*, *=, fixed_multiply}: independent, product-targeted (b = T/a +- 3 for T in {+-2^63, +-(2^63-1), +-MAXF*2^16, +-2^62, +-2^79, ...}) complementary bit lengths (len a + len b = 63 +- 3), and factor pairs whose raw product is exactly +-(2^63-1), -2^63 or +-2^62; oracle in 128-bit integers: result is NaN or |r*2^16 - a*b| <= 2^16; not NaN when a*b fits int64; NaN when |a*b| > MAXF*2^16; non-trivial = |a*b| >= 2^62",
   c02_ff_check, 24, c02_ff_decode, nullptr });
 
 static const char* kMulIntForms[3] = { "mul_r_", "mul_l_", "muleq_" };
@@ -302,3 +308,31 @@ static Reg r_c02_const({ "C02.const", "C02", "rc",
 static Reg r_c03_const({ "C03.const", "C03", "rc",
   "generated programs: a/N and a/=N with N a LITERAL of each integral type (as C02.const); dividends are near-multiples q*N+-3 of both signs; oracle: trunc(a/N) exactly, no trap; non-trivial = negative inexact dividend or |N| >= 2^31",
   c03_const_check, 16, cs_decode<true>, nullptr });
+
+// ================================================================ C18.const: literal shift counts
+static void c18_const_check(Ctx& ctx, const Args& a)
+{
+  if (a.size() != 2 || !m_finite128(a[1]) || ctx.cuts.empty() || !ctx.cuts[0].ktable || a[0] < 0 || a[0] >= ctx.cuts[0].nk) { ctx.skip(); return; }
+  int idx = (int)a[0]; const Cut::KEntry& ke = ctx.cuts[0].ktable[idx]; if (ke.shape != 7 && ke.shape != 8) { ctx.skip(); return; }
+  int64_t x = a[1], r = ke.k; bool left = ke.shape == 7; ctx.cls(left ? "a<<R" : "a>>R"); if (x < 0 || r < 0 || r >= 62) ctx.nontriv();
+  i128 p = r >= 0 ? ((i128)x << r) : 0; if (left && r >= 0 && !m_finite128(p)) { ctx.cls("shl-out-of-range"); ctx.nontriv(); }
+  for (size_t ci = 0; ci < ctx.cuts.size(); ++ci) {
+    const Cut& cu = ctx.cuts[ci]; if (!cu.ktable || cu.nk <= idx || cu.ktable[idx].k != r || cu.ktable[idx].shape != ke.shape) { ctx.fail(ci, "generated tables differ between configurations (harness error)"); continue; }
+    CallResult cr = cut_call_k(cu, idx, x); ++ctx.executions; int64_t v = cr.v;
+    if (cr.trap) { ctx.fail(ci, strf("%s with literal count %" PRId64 ", x=%" PRId64 " did not return: %s", left ? "x<<R" : "x>>R", r, x, g_trap_why)); continue; }
+    if (r < 0) { if (!m_isnan(v)) ctx.fail(ci, strf("shift by the literal negative count %" PRId64 " of %" PRId64 " = %" PRId64 ", expected NaN", r, x, v)); continue; }
+    if (!left) { if (v != (x >> r)) ctx.fail(ci, strf("%" PRId64 " >> literal %" PRId64 " = %" PRId64 ", expected %" PRId64, x, r, v, x >> r)); continue; }
+    if (m_finite128(p)) { if (v != (int64_t)p) ctx.fail(ci, strf("%" PRId64 " << literal %" PRId64 " = %" PRId64 ", expected %s", x, r, v, i128s(p).c_str())); }
+    else if ((x > 0 && v < 0) || (x < 0 && v > 0)) ctx.fail(ci, strf("%" PRId64 " << literal %" PRId64 " = %" PRId64 " has the opposite sign to x", x, r, v));
+  }
+}
+static Args c18_const_decode(Ctx& ctx, Dec& d)
+{
+  int nk = ctx.cuts.empty() || !ctx.cuts[0].ktable ? 1 : ctx.cuts[0].nk; int first = 0; if (ctx.cuts[0].ktable) { while (first < nk && ctx.cuts[0].ktable[first].shape < 7) ++first; }
+  int idx = first + (int)d.range(0, nk - first - 1 > 0 ? nk - first - 1 : 0); int64_t x = dec_raw(d); int mode = (int)d.range(0, 2); uint64_t u = d.u64(); bool neg = d.flag();
+  if (mode && ctx.cuts[0].ktable && ctx.cuts[0].ktable[idx].k >= 0) { int len = 63 - (int)ctx.cuts[0].ktable[idx].k + (int)(u % 3) - 1; if (len < 1) len = 1; if (len > 63) len = 63; uint64_t m = ((uint64_t)1 << len) - 1; int64_t v = (int64_t)(((u >> 8) & m) | ((uint64_t)1 << (len - 1))); if (v > MAXF) v = MAXF; x = neg ? -v : v; }
+  return { idx, x };
+}
+static Reg r_c18_const({ "C18.const", "C18", "rc",
+  "generated programs: x << R and x >> R with R a LITERAL shift count (0,1,2,15..17,31..33,46..48,61..63,-1,-64), compiled under every configuration (a compile-time-constant count takes different paths in the optimiser and in __builtin_constant_p shortcuts); x placed so that x*2^R straddles the range limit; oracle as C18.shift; non-trivial = negative x, negative or >= 62 count, x*2^R out of range",
+  c18_const_check, 12, c18_const_decode, nullptr });
